@@ -169,4 +169,35 @@ theorem C07_code_leaf_conforms (expf : Rat → Rat) (P : Policy) (l : LeafN) (s 
       List.length_singleton]
     exact ⟨trivial, by push_cast⟩
 
+/-- code vs model at an inner node: with the model's routing decision and the over-full flag of the model's recursive insertion
+as the inputs `closest_idx` and `child_must_be_split`, and `cap = len(buf) - 1`, the code's flag and number of entries are
+those of `ins (h+1)` -/
+theorem C07_code_inner_conforms (expf : Rat → Rat) (P : Policy) (h : Nat) (t : InnerN (Tree h)) (s c : Clu) (child : Tree h)
+    (next : Nat) (subs buf log : List Nat) (hd tok h1 h2 c1 c2 cUpd : Nat)
+    (hne : subs ≠ []) (hlen : subs.length < buf.length) (hl : t.ents.length = subs.length) (hcap : t.cap = buf.length - 1)
+    (hi : P.route t.cache s.cent < subs.length) (hc : t.ents[P.route t.cache s.cent]? = some (c, child))
+    (hfirst : subs.idxOf? subs[P.route t.cache s.cent] = some (P.route t.cache s.cent))
+    (fn thr x5 x6 x11 xc : PV) :
+    let out := BBGen._BFNode_insert_bf_subcluster expf (PV.arr .big subs) (PV.arr .big buf) (PV.arr .big log) (PV.int hd) fn thr
+        (PV.int cUpd) (PV.bool (ins P h child s next).over) (PV.int (P.route t.cache s.cent)) (PV.int tok) x5 x6
+        (PV.int h1) (PV.int c1) (PV.int h2) (PV.int c2) x11 xc
+    out.getD 0 PV.pynone = PV.bool (ins P (h + 1) t s next).over ∧
+    PV.len (out.getD 1 PV.pynone) = PV.int ((ins P (h + 1) t s next).node : InnerN (Tree h)).ents.length := by
+  intro out
+  obtain ⟨hov, hno⟩ := ins_cases P h t s next c child hc
+  cases ho : (ins P h child s next).over with
+  | true =>
+    obtain ⟨e1, e2⟩ := hov ho
+    have := gen_insert_inner_split expf subs buf log hd (P.route t.cache s.cent) tok h1 h2 c1 c2 hne hi hlen hfirst
+      fn thr (PV.int cUpd) x5 x6 x11 xc
+    simp only [out, ho, this, List.getD_cons_zero, List.getD_cons_succ, e1, e2, PV.len, hl, hcap, List.length_append,
+      List.length_set, List.length_singleton]
+    exact ⟨trivial, by push_cast⟩
+  | false =>
+    obtain ⟨e1, e2⟩ := hno ho
+    have := gen_insert_inner_update expf subs buf log hd (P.route t.cache s.cent) tok cUpd hne hi hlen
+      fn thr x5 x6 (PV.int h1) (PV.int c1) (PV.int h2) (PV.int c2) x11 xc
+    simp only [out, ho, this, List.getD_cons_zero, List.getD_cons_succ, e1, e2, PV.len, hl]
+    exact ⟨trivial, trivial⟩
+
 end BB
